@@ -5,6 +5,7 @@ package c01
 
 import (
 	"fmt"
+	"math"
 	"net/http"
 	"net/http/httptest"
 	"net/url"
@@ -88,12 +89,15 @@ func checkWindow(s *sys, prop string, what func() map[string]any, rep *lib.Repor
 		g = gcd(g, w)
 	}
 	sort.Strings(hosts)
-	if sum == 0 {
+	if g == 0 {
 		// empty or all-zero pool: outside C01's premise ("not all zero"); C02 checks it
 		rep.Count("states_unservable_pool_skipped")
 		return
 	}
-	W := sum / g
+	W := 0 // sum(w_i/g): computed term by term, the plain sum may exceed the integer range for huge weights
+	for _, h := range hosts {
+		W += weights[h] / g
+	}
 	got := map[string]int{}
 	for k := 0; k < W; k++ {
 		h, ok := s.pick(k % 2)
@@ -195,17 +199,21 @@ func Run(tier string, sh lib.Shard, rep *lib.Report) {
 	rep.Sample(2, map[string]any{"model": m.Name, "result": r.Describe()})
 	// very unequal weights: fixed pools, every window offset
 	if sh.I == 0 {
-		big := [][]int{{100, 1}, {1000, 1, 1}, {5, 3, 1}, {12, 8, 6}, {7, 0, 7}}
+		// ... and weights near the top of the integer range (with a large common divisor, so that windows stay short)
+		big := [][]int{{100, 1}, {1000, 1, 1}, {5, 3, 1}, {12, 8, 6}, {7, 0, 7},
+			{7 << 60, 3 << 60, 0}, {5 << 60, 1 << 60}, {1 << 62, 1 << 62, 1 << 61}, {math.MaxInt64 / 5 * 5, math.MaxInt64 / 5 * 2}}
 		if tier == "thorough" {
 			big = append(big, []int{4096, 1}, []int{1000, 999, 1}, []int{64, 48, 36, 12})
 		}
 		for _, p := range big {
-			sum, g := 0, 0
+			W, g := 0, 0
 			for _, w := range p {
-				sum += w
 				g = gcd(g, w)
 			}
-			for off := 0; off < sum/g; off++ {
+			for _, w := range p {
+				W += w / g
+			}
+			for off := 0; off < W; off++ {
 				s := newSys()
 				for i, w := range p {
 					s.rr.UpsertServer(serverURL(i), roundrobin.Weight(w))
